@@ -59,6 +59,24 @@ fn run_hist(tier: Tier, schemes: &[&str], builder: bool, rep: &mut Report) {
     rep.stats.exhaustive = true;
 }
 
+/// Independent explorer (stateright) over the same transition function: unique-state counts must agree.
+fn stateright_cross_check(tier: Tier, rep: &mut Report) {
+    let t = Instant::now();
+    let labels = ["minimal", "all6+custom", "pad299@seq127", "minimal@seq2^64-2"];
+    let (steps, depth) = if tier == Tier::Thorough {
+        (alpha::steps_for::<EdS>(&alpha::core_actions::<EdS>(), &alpha::VAR_LENS[..1]), 2)
+    } else {
+        (alpha::steps_for::<EdS>(&alpha::mini_actions::<EdS>(), &alpha::VAR_LENS[..1]), 2)
+    };
+    let (sr, mine) = hist::sr::cross_check::<EdS>(&labels, steps, depth);
+    eprintln!("[stateright:{CFG}] unique states {sr} vs this engine {mine} ({:.1}s)", t.elapsed().as_secs_f64());
+    rep.stats.notes.push(format!("stateright cross-check (scheme ed, depth {depth}): stateright unique_state_count = {sr}, this engine = {mine}"));
+    rep.stats.class_n("crosscheck:stateright-unique-states", sr as u64);
+    if sr != mine {
+        rep.machinery.push(format!("stateright cross-check: unique state counts differ (stateright {sr}, engine {mine})"));
+    }
+}
+
 struct Plan {
     rule: &'static str,
     assumptions: Vec<&'static str>,
@@ -126,6 +144,7 @@ fn run_property(prop: &str, tier: Tier, rep: &mut Report) -> Plan {
             run_hist(tier, if b { &["k256", "comb-secp", "comb-ed"] } else { &[] }, true, rep);
             hist::c09_builder_sweep::<K256S>(&[1, 127], 290, 304, rep);
             hist::c09_builder_sweep::<CombEdS>(&[1, 65535], 290, 304, rep);
+            stateright_cross_check(tier, rep);
             rep.require_class("merge");
             rep.require_class("build:ok");
             Plan { rule: hist_rule, assumptions: vec![TRUST, BOUND_HIST, "configurations A (all features) and B (without rust-secp256k1)"] }
